@@ -302,7 +302,23 @@ func c03Events(env *c03env, pl netty.Pipeline, ch netty.Channel, tr *mock.Transp
 			observe(5, pos, func() { c.(netty.EventContext).HandleEvent("e") })
 		}
 	}
-	// exceptions last: one that reaches the tail closes the channel
+	// exceptions last: one that reaches the tail closes the channel.
+	// First an exception that originates in a failed ctx.Write: the head rejects the message (unsupported type), the
+	// writer's recover hands the exception to the pipeline, where it enters at the head like any other. The writer is
+	// the deepest context with no outbound handler between it and the head, so that the write really gets there.
+	if rng.Intn(2) == 0 {
+		p := 1
+		for p+1 < size-1 {
+			if _, isOut := pl.ContextAt(p).Handler().(netty.OutboundHandler); isOut {
+				break
+			}
+			p++
+		}
+		c := pl.ContextAt(p)
+		if observe(3, 0, func() { c.Write(42) }) {
+			return
+		}
+	}
 	if observe(3, 0, func() { pl.FireChannelException(ex) }) {
 		return
 	}
